@@ -272,4 +272,27 @@ theorem elab_connection_spec (s s' : Elab.St) (dn iname : String) (k : Nat) (ws 
   rw [connect_low_aligned _ ws hlen hfree] at hc
   cases hc
   exact hs
+/-- **elab_connection_total.**  Totality of the connection step: for an existing instance, a row at least as
+    wide as the expression and free at its low `|ws|` pins, `connectInstRow` succeeds (so
+    `elab_connection_spec` is not vacuous; for a row index `k` outside the instance the row is `[]` and only
+    the empty expression is accepted). -/
+theorem elab_connection_total (s : Elab.St) (dn iname : String) (k : Nat) (ws : List Nat) (d : Elab.Def) (ii : Nat)
+    (hd : s.find dn = some d) (hi : Elab.instIdx d iname = some ii)
+    (hlen : ws.length ≤ (((d.insts.getD ii default).pins).getD k []).length)
+    (hfree : ∀ j, j < ws.length → (((d.insts.getD ii default).pins).getD k [])[j]? = some none) :
+    ∃ s', Elab.connectInstRow s dn iname k ws = .ok s' := by
+  unfold Elab.connectInstRow Elab.getDef
+  simp only [hd, hi, bind, Except.bind, pure, Except.pure]
+  rw [connect_low_aligned _ ws hlen hfree]
+  exact ⟨_, rfl⟩
+
+def exSt : Elab.St :=
+  ⟨[⟨"top", some "work", false, [], none, [], [⟨"c", 0, true, [7, 8], none, none⟩],
+      [⟨"u", "leaf", [], none, [[none, none, none]]⟩]⟩], 9, some "top", 0, []⟩
+
+/-- non-vacuity: a two-bit expression on a free three-pin row of instance `u` -/
+example : ∃ s', Elab.connectInstRow exSt "top" "u" 0 [8, 7] = .ok s' ∧
+    (s'.find "top").map (fun d => (d.insts.map (·.pins))) = some [[[some 7, some 8, none]]] := by
+  refine ⟨_, rfl, ?_⟩
+  rfl
 end Spydr.Verilog
